@@ -180,6 +180,42 @@ def make_worker(tier):
     return work
 
 
+def run_cli(S, tier):
+    """The generation COMMAND itself (python -m fcp generate can_c|dbc) on a slice around the limit."""
+    import subprocess
+
+    cases = [c for c in size_cases(tier) if c[1] in (64, 65, 72) and c[2] in ("scalar-u", "nested", "array-elems")][:18] + variable_cases(tier)[:6]
+    for kind, n, label, pos, fields in cases:
+        h = Hoister()
+        st = ("st", tuple(("f%d" % i, i, t) for i, t in enumerate(fields)))
+        decls = h.decls + [struct_decl("Msg", st, h), ("impl", "can", "Msg", None, (("id", 2), ("device", "ecu")), ())]
+        decls = h.decls + [d for d in decls if d not in h.decls]
+        text = print_schema(decls)
+        must_fail = kind == "variable" or n > 64
+        for gen in ("can_c", "dbc"):
+            root = tempfile.mkdtemp(prefix="fcpmc-c14c-")
+            try:
+                src = os.path.join(root, "main.fcp")
+                open(src, "w").write(text)
+                out = os.path.join(root, "out")
+                os.makedirs(out)
+                p = subprocess.run([common.PYTHON, "-m", "fcp", "generate", gen, src, out], env=common.subprocess_env(), stdout=subprocess.PIPE, stderr=subprocess.PIPE, text=True, timeout=120)
+                S.count("states")
+                S.count("transitions")
+                S.count("executions")
+                S.add("nontrivial", ("cli", gen, n, label, pos))
+                files = sorted(os.listdir(out))
+                reported = "Error" in p.stdout or p.returncode != 0 or "Traceback" in p.stderr
+                S.add("outcomes", ("cli", gen, must_fail, reported, bool(files)))
+                inp = {"text": text, "cli": "python -m fcp generate %s main.fcp out" % gen, "size_bits": n, "straw": label}
+                if must_fail and (files or not reported):
+                    S.violation("C14.cli", "C14.cli/%s/%s" % ("files-written" if files else "no-error-reported", gen), inp, expected="error, nothing written", actual={"files": files, "stdout": p.stdout[-300:], "stderr": p.stderr[-300:]})
+                if not must_fail and (reported or not files):
+                    S.violation("C14.cli", "C14.cli/fitting-message-rejected/%s" % gen, inp, expected="files", actual={"files": files, "stdout": p.stdout[-300:], "stderr": p.stderr[-300:]})
+            finally:
+                shutil.rmtree(root, ignore_errors=True)
+
+
 def run(tier):
     common.bind_repo()
     r = Run("C14", tier)
@@ -187,6 +223,7 @@ def run(tier):
     r.bounds = {"size_cases": len(size_cases(tier)), "variable_cases": len(variable_cases(tier)), "sizes": SIZES}
     for s in pmap(make_worker(tier), chunks(list(enumerate(cases)), 25)):
         r.stats.merge(s)
+    run_cli(r.stats, tier)
     r.rule = (
         "states = CAN bindings of every packed size in 57..72, 80, 96, 128, 200 bits with the 'last straw' (1,3,8 bits; thorough also 2,5,9) as a top-level scalar, a (doubly) nested struct field, array elements, "
         "an array of structs or an enum, at the first/middle/last field position; plus every placement of a str / dynamic array / optional field (top, in a nested struct, first, in an array element, array of, 3 levels deep). "
